@@ -1138,6 +1138,11 @@ EB_API EbErrorType svt_av1_enc_init(EbComponentType *svt_enc_component)
     uint32_t instance_index;
     uint32_t process_index;
     uint32_t max_picture_width;
+    // the session must have been configured (set_parameter accepted) and not be initialised yet
+    if (enc_handle_ptr == NULL ||
+        enc_handle_ptr->scs_instance_array[0]->encode_context_ptr->prediction_structure_group_ptr == NULL ||
+        enc_handle_ptr->input_buffer_resource_ptr != NULL)
+        return EB_ErrorBadParameter;
     EbColorFormat color_format = enc_handle_ptr->scs_instance_array[0]->scs_ptr->static_config.encoder_color_format;
     SequenceControlSet* control_set_ptr;
 
@@ -3314,11 +3319,14 @@ EB_API EbErrorType svt_av1_enc_set_parameter(
     EbComponentType              *svt_enc_component,
     EbSvtAv1EncConfiguration     *config_struct)
 {
-    if(svt_enc_component == NULL)
+    if(svt_enc_component == NULL || config_struct == NULL)
         return EB_ErrorBadParameter;
 
     EbEncHandle        *enc_handle  = (EbEncHandle*)svt_enc_component->p_component_private;
     uint32_t              instance_index = 0;
+    // the configuration cannot be changed once the session is initialised
+    if (enc_handle == NULL || enc_handle->input_buffer_resource_ptr != NULL)
+        return EB_ErrorBadParameter;
 
     // Acquire Config Mutex
     svt_block_on_mutex(enc_handle->scs_instance_array[instance_index]->config_mutex);
@@ -3333,8 +3341,11 @@ EB_API EbErrorType svt_av1_enc_set_parameter(
     EbErrorType return_error = (EbErrorType)verify_settings(
         enc_handle->scs_instance_array[instance_index]->scs_ptr);
 
-    if (return_error == EB_ErrorBadParameter)
+    if (return_error == EB_ErrorBadParameter) {
+        // Release Config Mutex
+        svt_release_mutex(enc_handle->scs_instance_array[instance_index]->config_mutex);
         return EB_ErrorBadParameter;
+    }
     set_param_based_on_input(
         enc_handle->scs_instance_array[instance_index]->scs_ptr);
 
@@ -3372,7 +3383,7 @@ EB_API EbErrorType svt_av1_enc_stream_header(
 {
     EbErrorType              return_error = EB_ErrorNone;
 
-    if(!svt_enc_component)
+    if(!svt_enc_component || !output_stream_ptr || !svt_enc_component->p_component_private)
         return EB_ErrorBadParameter;
 
     EbEncHandle             *enc_handle  = (EbEncHandle*)svt_enc_component->p_component_private;
@@ -3656,8 +3667,13 @@ EB_API EbErrorType svt_av1_enc_send_picture(
     EbComponentType      *svt_enc_component,
     EbBufferHeaderType   *p_buffer)
 {
+    if (svt_enc_component == NULL || svt_enc_component->p_component_private == NULL)
+        return EB_ErrorBadParameter;
     EbEncHandle          *enc_handle_ptr = (EbEncHandle*)svt_enc_component->p_component_private;
     EbObjectWrapper      *eb_wrapper_ptr;
+    // the session must be initialised
+    if (enc_handle_ptr->input_buffer_producer_fifo_ptr == NULL)
+        return EB_ErrorBadParameter;
 
     // Take the buffer and put it into our internal queue structure
     svt_get_empty_object(
@@ -3716,9 +3732,14 @@ EB_API EbErrorType svt_av1_enc_get_packet(
     unsigned char          pic_send_done)
 {
     EbErrorType             return_error = EB_ErrorNone;
+    if (svt_enc_component == NULL || p_buffer == NULL || svt_enc_component->p_component_private == NULL)
+        return EB_ErrorBadParameter;
     EbEncHandle          *enc_handle = (EbEncHandle*)svt_enc_component->p_component_private;
     EbObjectWrapper      *eb_wrapper_ptr = NULL;
     EbBufferHeaderType    *packet;
+    // the session must be initialised
+    if (enc_handle->output_stream_buffer_consumer_fifo_ptr == NULL)
+        return EB_ErrorBadParameter;
     if (pic_send_done)
         svt_get_full_object(
             enc_handle->output_stream_buffer_consumer_fifo_ptr,
@@ -3746,7 +3767,7 @@ EB_API EbErrorType svt_av1_enc_get_packet(
 EB_API void svt_av1_enc_release_out_buffer(
     EbBufferHeaderType  **p_buffer)
 {
-    if (p_buffer && (*p_buffer)->wrapper_ptr)
+    if (p_buffer && *p_buffer && (*p_buffer)->wrapper_ptr)
     {
         if((*p_buffer)->p_buffer)
            EB_FREE((*p_buffer)->p_buffer);
@@ -3764,8 +3785,13 @@ EB_API EbErrorType svt_av1_get_recon(
     EbBufferHeaderType   *p_buffer)
 {
     EbErrorType           return_error = EB_ErrorNone;
+    if (svt_enc_component == NULL || p_buffer == NULL || svt_enc_component->p_component_private == NULL)
+        return EB_ErrorBadParameter;
     EbEncHandle          *enc_handle = (EbEncHandle*)svt_enc_component->p_component_private;
     EbObjectWrapper      *eb_wrapper_ptr = NULL;
+    // the session must be initialised
+    if (enc_handle->output_stream_buffer_consumer_fifo_ptr == NULL)
+        return EB_ErrorBadParameter;
 
     if (enc_handle->scs_instance_array[0]->scs_ptr->static_config.recon_enabled) {
         svt_get_full_object_non_blocking(
